@@ -11,7 +11,10 @@ import (
 	"sync"
 	"time"
 
+	"github.com/ethereum/go-ethereum/rlp"
 	"github.com/inconshreveable/log15"
+	"github.com/syndtr/goleveldb/leveldb"
+	"github.com/syndtr/goleveldb/leveldb/opt"
 
 	"github.com/zenon-network/go-zenon/chain"
 	"github.com/zenon-network/go-zenon/chain/genesis"
@@ -59,6 +62,8 @@ func Silence() {
 	for _, l := range allLoggers {
 		l.SetHandler(log15.DiscardHandler())
 	}
+	// recovered VM panics are logged by the supervisor with their stack: keep those in the child log
+	common.SupervisorLogger.SetHandler(log15.LvlFilterHandler(log15.LvlError, log15.StreamHandler(os.Stderr, log15.LogfmtFormat())))
 }
 
 // Event is one boundary call recorded by a node.
@@ -88,6 +93,9 @@ type Node struct {
 	// Observers (optional). Called at the client boundary, after the call returned.
 	OnBlock    func(tx *nom.AccountBlock, changes db.Patch, err error)
 	OnMomentum func(m *nom.Momentum, err error)
+
+	// TemplateHook, if set, may edit a block template before the supervisor fills and signs it.
+	TemplateHook func(tpl *nom.AccountBlock)
 
 	// LastBlockErr / LastMomentumErr: result of the last Create* call.
 	LastBlockErr    error
@@ -291,7 +299,17 @@ func KeyFor(addr types.Address) *wallet.KeyPair {
 }
 
 // Generate builds (and signs) a block from a template with the real supervisor, without inserting it.
-func (n *Node) Generate(tpl *nom.AccountBlock, kp *wallet.KeyPair) (*nom.AccountBlockTransaction, error) {
+func (n *Node) Generate(tpl *nom.AccountBlock, kp *wallet.KeyPair) (tx *nom.AccountBlockTransaction, err error) {
+	if n.TemplateHook != nil {
+		n.TemplateHook(tpl)
+	}
+	// GenerateFromTemplate is a local convenience of the wallet side and panics on templates it cannot
+	// resolve (unknown acknowledged momentum); that is not an acceptance path, so turn it into an error.
+	defer func() {
+		if r := recover(); r != nil {
+			tx, err = nil, fmt.Errorf("generate panicked: %v", r)
+		}
+	}()
 	return n.Sup.GenerateFromTemplate(tpl, kp.Signer)
 }
 
@@ -432,4 +450,49 @@ func trunc(s string) string {
 		return s[:96] + "…"
 	}
 	return s
+}
+
+// WireBatch passes a batch through RLP exactly as the protocol handler does (encode, decode, EnsureCache).
+func WireBatch(batch []*nom.DetailedMomentum) ([]*nom.DetailedMomentum, error) {
+	data, err := rlp.EncodeToBytes(batch)
+	if err != nil {
+		return nil, err
+	}
+	var out []*nom.DetailedMomentum
+	if err := rlp.DecodeBytes(data, &out); err != nil {
+		return nil, err
+	}
+	for _, d := range out {
+		d.Momentum.EnsureCache()
+	}
+	return out, nil
+}
+
+// WireBlocks passes account blocks through RLP as the TxMsg handler does.
+func WireBlocks(blocks []*nom.AccountBlock) ([]*nom.AccountBlock, error) {
+	data, err := rlp.EncodeToBytes(blocks)
+	if err != nil {
+		return nil, err
+	}
+	var out []*nom.AccountBlock
+	if err := rlp.DecodeBytes(data, &out); err != nil {
+		return nil, err
+	}
+	return out, nil
+}
+
+// RawDump opens the LevelDB directory of a STOPPED node and returns every raw key/value (hex).
+func RawDump(dir string) (map[string]string, error) {
+	ldb, err := leveldb.OpenFile(dir, &opt.Options{ErrorIfMissing: true})
+	if err != nil {
+		return nil, err
+	}
+	defer ldb.Close()
+	out := map[string]string{}
+	it := ldb.NewIterator(nil, nil)
+	defer it.Release()
+	for it.Next() {
+		out[hex.EncodeToString(it.Key())] = hex.EncodeToString(it.Value())
+	}
+	return out, it.Error()
 }
